@@ -6,5 +6,5 @@ HERE="$(cd "$(dirname "$0")" && pwd)"
 mkdir -p "$HERE/target" "$HERE/work" "$HERE/evidence" "$HERE/replays"
 ( cd "$HERE/engine" && CARGO_TARGET_DIR="$HERE/target/engine" cargo build --offline --release -p driver )
 # warm the shared target directory of generated crates (proptest, syn, rt, model; dev + release)
-"$HERE/target/engine/release/bbv" warm
+BBV_ROOT="$HERE" "$HERE/target/engine/release/bbv" warm
 echo "setup done"
